@@ -205,7 +205,7 @@ Qed.
 Example C32_nonvacuous_model_runs :
   (exists n, compute_normal Q QO [(3, 0, 0); (1, 1, 0); (1, 0, 1); (-1, 1, 1)]%Q (1 # 100000)
              = Ok n) /\
-  (exists A, plane_matrix_pts Q QO [(0, 0, 0); (4, -3, 0); (0, 12, -4); (4, 9, -5)]%Q
+  (exists A, plane_matrix_pts Q QO [(0, 0, 0); (4, -3, 0); (0, 12, -4); (4, 9, -4)]%Q
                (1 # 100000) (0, 0, 1)%Q = Ok A /\ A <> ident Q QO) /\
   (exists A, line_matrix_pts Q QO [(1, 1, 0); (4, 5, 12); (-5, -7, -24)]%Q (0, 0, 1)%Q = Ok A
              /\ A <> ident Q QO) /\
